@@ -133,11 +133,20 @@ class Base(pipeline.Stream):
             self.watch.teardown()
             self.world.teardown()
 
+    _ncfg = 0
+
     def config(self, use, with_classes, version=2.0):
         cfg = self.C.Config(version=version, use_jsonclass=use)
         if with_classes:
             for n, c in self.world.local_table().items():
                 cfg.classes.add(c, n)
+        # every third configuration is handed over as a copy, every ninth as a copy of a copy: a configuration
+        # derived with Config.copy() (what the dispatcher itself does for 1.0-form requests) must behave alike
+        Base._ncfg += 1
+        if Base._ncfg % 3 == 0:
+            cfg = cfg.copy()
+            if Base._ncfg % 9 == 0:
+                cfg = cfg.copy()
         return cfg
 
     def masked(self, case, obs):
